@@ -742,9 +742,7 @@ let rec exec (toks : string list) (side : string list) (impl_result : string) : 
     Hashtbl.replace datasets d ds'; (match r with Some v -> fstr_q v | None -> "panic")
   | ["dcount"; d] -> fstr_q (Hashtbl.find datasets d).M.ds_count
   | ["dsum"; d] ->
-    let one = f64_of_hex "3ff0000000000000" in
-    let t = List.fold_left (fun t v -> M.su_add t (M.q2f v) one) M.su_new (Hashtbl.find datasets d).M.ds_values in
-    xstr (M.su_get_sum t)
+    xstr (M.xd_sum (Hashtbl.find datasets d))      (* Data/DatasetSum.v: the loop of Sum(), proved accurate to rounding (Props/C20sum.v) *)
   (* ----- summary statistics used directly: Stat/Summary.v on Flocq binary64, bit for bit ----- *)
   | ["tempty"; t] -> Hashtbl.replace statsr t M.su_new; "ok"
   | ["tnew"; t; c; sm; mn; mx] ->
